@@ -151,3 +151,36 @@ Proof.
       * apply (time_at_monotone_gen td b0 v0 rest D H b1 t1 b2 t2); [lra|lra|right; exact Ge| |exact Htag].
         destruct (Qlt_le_dec 0 b2) as [P2|Z2]; [left; exact P2|right]. assert (Eb : b1 == b2) by lra. specialize (Htag Eb). lia.
 Qed.
+
+(* ---- negative beats: the search clamps to the initial state ---- *)
+Lemma prior_negative td v0 b tag : dom td -> b < 0 -> prior (sts td v0) (init_state td v0) b tag = init_state td v0.
+Proof.
+  intros D Hb. set (s0 := init_state td v0).
+  assert (Hall : forall i, (i < length (sts td v0))%nat -> key_lt b tag (nth i (sts td v0) s0) = true).
+  { intros i Hi. apply key_lt_spec. left. destruct i as [|i].
+    - assert (E0 : nth 0 (sts td v0) s0 = s0) by (unfold sts; destruct (events td); reflexivity). rewrite E0. unfold s0, init_state. simpl. exact Hb.
+    - unfold sts in Hi. rewrite run_states_length in Hi.
+      destruct (nth_error (events td) i) as [e|] eqn:E; [|apply nth_error_None in E; lia].
+      destruct (state_of_event (events td) (init_state td v0) s0 i e E) as [A _].
+      assert (A' : s_beat (nth (S i) (sts td v0) s0) = e_beat e) by exact A. rewrite A'.
+      pose proof (events_nonneg td D e (nth_error_In _ _ E)). lra. }
+  destruct (bisect_right_boundary (key_lt b tag) (sts td v0) s0) as (Hr & Hbd).
+  unfold prior. fold s0. destruct (bisect_right (key_lt b tag) (sts td v0) s0) as [|r] eqn:Er.
+  - cbn [Nat.pred]. unfold sts. destruct (events td); reflexivity.
+  - exfalso. destruct Hbd as [X|X]; [discriminate|]. rewrite Hall in X; [discriminate|lia].
+Qed.
+
+Theorem hittable_negative td v0 b : dom td -> b < 0 -> hittable (sts td v0) (init_state td v0) b = true.
+Proof. intros D Hb. unfold hittable. rewrite (prior_negative td v0 b tSTOP_END D Hb). reflexivity. Qed.
+
+(* hittability on every beat, negative ones included *)
+Theorem hittable_iff_all td v0 b : dom td -> (exists rest, td_bpms td = (0, v0) :: rest) ->
+  (hittable (sts td v0) (init_state td v0) b = false <-> (in_raw (td_warps td) b /\ ~ pause_on td b)).
+Proof.
+  intros D Hbpm. destruct (Qlt_le_dec b 0) as [N|P].
+  - rewrite (hittable_negative td v0 b D N). split; [discriminate|]. intros [(s & l & Hin & Hs & _) _]. exfalso.
+    pose proof (dom_nonneg td D) as Hnn. rewrite Forall_forall in Hnn.
+    assert (0 <= fst (s, l)) by (apply Hnn; apply in_or_app; right; apply in_or_app; right; apply in_or_app; right; exact Hin).
+    simpl in H. lra.
+  - exact (hittable_iff td v0 b D Hbpm P).
+Qed.
